@@ -674,7 +674,7 @@ def discharge_assert(kind, op, ops, tys, lin, iv, get_facts):
             fs = get_facts()
             la, lb = lin.of_value(ops[0]), lin.of_value(ops[1])
             cands = set()
-            for f_ in fs + [lb]:
+            for f_ in fs + [lb, la] + linear.aux_facts(lin, fs + [lb, la]):
                 for at in f_[0]:
                     if isinstance(at, tuple) and at and at[0] == "call" and at[1].split("::")[-1] == "saturating_sub" and len(at) > 2:
                         cands.add(at)
